@@ -165,3 +165,68 @@ func VerifHarness_C14_timestamp() {
 		verifAssert(x.Read(ndBytes("junk", n)) != nil, "timestamp-wrong-length-rejected")
 	}
 }
+
+func init() {
+	verifRegister("C14_float_whole", VerifHarness_C14_float_whole)
+	verifRegister("C14_float_big", VerifHarness_C14_float_big)
+	verifRegister("C14_float_write", VerifHarness_C14_float_write)
+}
+
+func c14AssumeDigits(b []byte) {
+	for _, c := range b {
+		verifAssume(verifAnd(c >= '0', c <= '9'))
+	}
+}
+
+// C14_float_whole: a canonical whole-number text (optional '-', up to 15 digits, no leading zero) is read as exactly
+// that number and written back as exactly that text.
+func VerifHarness_C14_float_whole() {
+	n := verifConc(ndInt("digits", 1, verifBound(9, 15)))
+	d := ndBytes("d", n)
+	c14AssumeDigits(d)
+	verifAssume(verifOr(n == 1, d[0] != '0'))
+	neg := ndBool("negative")
+	text := d
+	if neg {
+		verifAssume(verifOr(n > 1, d[0] != '0'))
+		text = append([]byte{'-'}, d...)
+	}
+	ref := 0
+	for _, c := range d {
+		ref = ref*10 + (int(c) - '0')
+	}
+	if neg {
+		ref = -ref
+	}
+	var f FIXFloat
+	err := f.Read(text)
+	verifAssert(err == nil, "float-whole-number-accepted")
+	if err != nil {
+		return
+	}
+	verifAssert(f.Float64() == float64(ref), "float-whole-number-value")
+	verifAssert(verifEqBytes(f.Write(), text), "float-read-write-text")
+}
+
+// C14_float_big: all-digit texts of 16 to 19 (20) digits - around the limits of int64 - are floats too: accepted, and
+// never read as a negative number.
+func VerifHarness_C14_float_big() {
+	n := verifConc(ndInt("digits", 16, 19+verifTier()))
+	d := ndBytes("d", n)
+	c14AssumeDigits(d)
+	var f FIXFloat
+	err := f.Read(d)
+	verifAssert(err == nil, "float-long-whole-number-accepted")
+	if err != nil {
+		return
+	}
+	verifAssert(!(f.Float64() < 0), "float-unsigned-text-not-negative")
+}
+
+// C14_float_write: every whole number of up to 15 digits (below 2^53) written as a float reads back as the same value.
+func VerifHarness_C14_float_write() {
+	v := ndInt("v", -999999999999999, 999999999999999)
+	w := FIXFloat(float64(v)).Write()
+	var f FIXFloat
+	verifAssert(f.Read(w) == nil && f.Float64() == float64(v), "float-write-read-value")
+}
